@@ -342,6 +342,97 @@ Definition gen_main_impl (tdef : term) (idx : nat) (first_blk : term) (g : abg) 
   | _ => None
   end.
 
+Definition before_semi (s : string) : string :=
+  (fix go (s : string) : string :=
+     match s with
+     | EmptyString => EmptyString
+     | String c r => if Ascii.eqb c ";"%char then EmptyString else String c (go r)
+     end) s.
+
+Definition after_semi (s : string) : string :=
+  (fix go (s : string) : string :=
+     match s with
+     | EmptyString => EmptyString
+     | String c r => if Ascii.eqb c ";"%char then r else go r
+     end) s.
+
+(* ---- the items of the main impl: every item forwards to the helper trait's item of the same
+   name through `<Self as Helper<..>>::item` (ImplItemResolver); in trait mode the types and
+   signatures are the trait's with its parameters replaced by the block's arguments
+   (gen_dummy_impl_from_trait_definition), in inherent mode the first block's own ---- *)
+Definition self_type : term := Node (K "TPath" "") [Node (K "ONone" "") []; mk_path_ident "Self"].
+Definition fwd_kids (hb : term) (name : string) : list term :=
+  [Node (K "OSome" "") [Node (K "QSelf" "1as") [self_type]];
+   match hb with Node lp segs => Node lp (segs ++ [Node (K "Seg" name) [Node (K "ANone" "") []]]) end].
+Definition fwd_expr (hb : term) (name : string) : term := Node (K "EPath" "") (fwd_kids hb name).
+Definition fwd_type (hb : term) (name : string) : term := Node (K "TPath" "") (fwd_kids hb name).
+
+Definition name_expr (n : string) : term := Node (K "EPath" "") [Node (K "ONone" "") []; mk_path_ident n].
+
+Definition call_args (inputs : term) : list term :=
+  map (fun a => if is_kind "Recv" (tlabel a) then name_expr "self" else name_expr (ld (tlabel a))) (tkids inputs).
+
+Definition fwd_body (hb : term) (name : string) (inputs : term) : term :=
+  Node (K "Block" "") [Node (K "ECall" "") (fwd_expr hb name :: call_args inputs)].
+
+Definition item_name (d : string) : string := after_semi d.
+
+Definition gen_main_items (tdef titems : term) (idx : nat) (first_blk : term) (g : abg) : option term :=
+  match first_blk, helper_bound idx first_blk (abg_idents g) with
+  | Node lb [gen; tr; self; wh; Node li items], Some hb =>
+      match opt_kid tr, tdef with
+      | Some p, Node lt [Node _ tps; _] =>
+          if is_kind "Trait" lt then
+            let args := last_args p in
+            match zip_params tps args (default_maps (skipn (List.length args) tps)) with
+            | Some m =>
+                Some (Node (K "Items" "")
+                  (map (fun ti =>
+                          let n := ld (tlabel ti) in
+                          let d := String ";" n in
+                          if is_kind "TIConst" (tlabel ti) then
+                            Node (K "IConst" d) (map (resolve m) (tkids ti) ++ [fwd_expr hb n])
+                          else if is_kind "TIType" (tlabel ti) then
+                            Node (K "IType" d) [fwd_type hb n]
+                          else
+                            Node (K "IFn" d) (map (resolve m) (tkids ti) ++
+                                              [fwd_body hb n (nth 0 (tkids ti) (Node (K "List" "") []))]))
+                       (tkids titems)))
+            | None => None
+            end
+          else None
+      | None, _ =>
+          Some (Node (K "Items" "")
+            (map (fun it =>
+                    let n := item_name (ld (tlabel it)) in
+                    if is_kind "IConst" (tlabel it) then
+                      Node (tlabel it) (removelast (tkids it) ++ [fwd_expr hb n])
+                    else if is_kind "IType" (tlabel it) then Node (tlabel it) [fwd_type hb n]
+                    else
+                      Node (tlabel it) (removelast (tkids it) ++
+                                        [fwd_body hb n (nth 0 (tkids it) (Node (K "List" "") []))])) items))
+      | _, _ => None
+      end
+  | _, _ => None
+  end.
+
+Definition gen_main_items_render (tdef titems : term) (blocks : list term) : option term :=
+  match search (4 * List.length blocks + 8) blocks with
+  | None => None
+  | Some gm =>
+      option_map (fun ms => Node (K "MainItems" "") ms)
+        (omap (fun ie =>
+                 let e := snd ie in
+                 match snd (snd e) with
+                 | m0 :: _ => match nth_error blocks m0 with
+                              | Some fb => gen_main_items tdef titems (fst ie) fb (fst (snd e))
+                              | None => None
+                              end
+                 | [] => None
+                 end)
+              (combine (seq 0 (List.length gm)) gm))
+  end.
+
 Definition gen_main_render (tdef : term) (blocks : list term) : option term :=
   match search (4 * List.length blocks + 8) blocks with
   | None => None
@@ -360,20 +451,6 @@ Definition gen_main_render (tdef : term) (blocks : list term) : option term :=
   end.
 
 (* ---- helper_trait.rs (header level, after fixes F12, F29): the helper trait of a family ---- *)
-Definition before_semi (s : string) : string :=
-  (fix go (s : string) : string :=
-     match s with
-     | EmptyString => EmptyString
-     | String c r => if Ascii.eqb c ";"%char then EmptyString else String c (go r)
-     end) s.
-
-Definition after_semi (s : string) : string :=
-  (fix go (s : string) : string :=
-     match s with
-     | EmptyString => EmptyString
-     | String c r => if Ascii.eqb c ";"%char then r else go r
-     end) s.
-
 Fixpoint insert_gp_by_name (gp : term) (sorted : list term) : list term :=
   match sorted with
   | [] => [gp]
